@@ -340,8 +340,9 @@ class Compiler:
         return self.protected
 
     # -------------------------------------------------------------- threads
-    def add_thread(self, name: str, source: str, args: dict | None = None, dynamic: bool = False, method: str | None = None):
-        """source: a `def program(...)` harness function; args: param name -> universe code (static threads)."""
+    def add_thread(self, name: str, source: str, args: dict | None = None, dynamic: bool = False, method: str | None = None, defer: bool = False):
+        """source: a `def program(...)` harness function; args: param name -> universe code (static threads).
+        defer=True registers the thread (so that start() sites can refer to it) and compiles its body at finish_deferred()."""
         fn = ast.parse(textwrap.dedent(source)).body[0]
         entry = self.m.new_node(f"{name}:entry")
         end = self.m.new_node(f"{name}:end")
@@ -352,11 +353,24 @@ class Compiler:
         if dynamic:
             self.m.var(f"active.{name}", 0)
             self.dynamic_slots.append(name)
+        for a in fn.args.args:
+            self.m.var(f"L.{name}.main.{a.arg}", (args or {}).get(a.arg, UNSET))
+        if defer:
+            self._deferred = getattr(self, "_deferred", [])
+            self._deferred.append((name, fn, entry, end))
+            return
+        self._compile_thread(name, fn, entry, end)
+
+    def finish_deferred(self):
+        for name, fn, entry, end in getattr(self, "_deferred", []):
+            self._compile_thread(name, fn, entry, end)
+        self._deferred = []
+
+    def _compile_thread(self, name, fn, entry, end):
         ctx = Ctx(self, name, line0=0, file=f"<scenario:{name}>")
         frame = ctx.push_frame("main")
         for a in fn.args.args:
-            v = self.m.var(f"L.{name}.main.{a.arg}", (args or {}).get(a.arg, UNSET))
-            frame.locals[a.arg] = v
+            frame.locals[a.arg] = f"L.{name}.main.{a.arg}"
         frame.ret_node = end
         frame.ret_var = self.m.var(f"L.{name}.main.__ret", UNSET)
         ctx.handlers = [Handler("top", end)]
@@ -393,6 +407,11 @@ class Compiler:
 
     def s_FunctionDef(self, ctx, s, cur):
         ctx.frame.localfuncs[s.name] = s
+        # also usable as a value (passed to spawn()): a token naming the definition, with its defining frame as closure
+        self.closures = getattr(self, "closures", {})
+        s._owner_file = ctx.file
+        s._line0_abs = ctx.line0
+        self.closures[s.name] = (s, ctx.frame, ctx.line0, ctx.file)
         return cur
 
     def s_Expr(self, ctx, s, cur):
@@ -465,8 +484,9 @@ class Compiler:
                 ups = []
                 shape = self._flatten_tuple(target.attr, val, obj, ups)
                 self._tuple_fields = getattr(self, "_tuple_fields", {})
-                if self._tuple_fields.get(target.attr, shape) != shape:
+                if self._tuple_fields.get(target.attr, shape) != shape and not getattr(self, "allow_padded_tuples", False):
                     self.err(s, f"field {target.attr} is assigned tuples of different shapes")
+                shape = self._tuple_fields.get(target.attr, shape)
                 self._tuple_fields[target.attr] = shape
                 in_init = ctx.frame.fname == "__init__"
                 self.emit(ctx, cur, nxt, updates=ups, visible=not in_init, node=s)
@@ -488,6 +508,13 @@ class Compiler:
         self.err(s, "unsupported assignment target")
 
     def _flatten_tuple(self, fname, val, obj, ups):
+        declared = getattr(self, "_tuple_fields", {}).get(fname) if "#" not in fname else None
+        want = self._declared_shape(fname)
+        if want is not None and isinstance(want, list) and len(val[1]) < len(want) and all(x == "S" for x in want):
+            # a shorter tuple than the declared shape (e.g. spawn(f) vs spawn(f, a, b)): absent components are UNSET
+            val = ("tuple", list(val[1]) + [C(UNSET)] * (len(want) - len(val[1])))
+            ret = self._flatten_tuple(fname, val, obj, ups)
+            return ret
         shape = []
         for i, x in enumerate(val[1]):
             sub = f"{fname}#{i}"
@@ -512,6 +539,15 @@ class Compiler:
                     self._ensure_field(f"{prefix}#{i}")
 
         walk(fname, shape)
+
+    def _declared_shape(self, fname):
+        parts = fname.split("#")
+        sh = getattr(self, "_tuple_fields", {}).get(parts[0])
+        for p_ in parts[1:]:
+            if not isinstance(sh, list) or int(p_) >= len(sh):
+                return None
+            sh = sh[int(p_)]
+        return sh
 
     def _rebuild_tuple(self, fname, shape, obj):
         vals = []
@@ -576,6 +612,20 @@ class Compiler:
     def s_For(self, ctx, s, cur):
         """for NAME in self._list(<map>) / list(<map>): iterates over a snapshot of the map's keys (bounded by MAP_KEYS)"""
         it = s.iter
+        if isinstance(it, ast.Name) and it.id in ctx.frame.tuples and ctx.frame.tuples[it.id][0] == "tuple" and not s.orelse:
+            # for x in <statically known sequence>: unrolled
+            after = self.m.new_node()
+            for elem in ctx.frame.tuples[it.id][1]:
+                cur = self.destructure(ctx, s.target, elem, cur, s)
+                nxt = self.m.new_node()
+                ctx.loops.append((nxt, after, len(ctx.finally_stack)))
+                e = self.block(ctx, s.body, cur)
+                ctx.loops.pop()
+                if e is not None:
+                    self.emit(ctx, e, nxt, visible=False)
+                cur = nxt
+            self.emit(ctx, cur, after, visible=False)
+            return after
         inner = it.args[0] if isinstance(it, ast.Call) and len(it.args) == 1 and ((isinstance(it.func, ast.Attribute) and it.func.attr == "_list") or (isinstance(it.func, ast.Name) and it.func.id == "list")) else None
         if inner is None or self.recv_hint(inner) != "Map" or not isinstance(s.target, ast.Name) or s.orelse:
             self.err(s, "unsupported statement For (only `for x in list(<map>)` is modelled)")
@@ -1014,6 +1064,24 @@ class Compiler:
                 return self.alloc(ctx, "List", cur, node)
             if isinstance(node, ast.Dict):
                 return cur, C(self.U.const("<emptydict>"))
+        if isinstance(node, ast.ListComp) and len(node.generators) == 1 and not node.generators[0].ifs:
+            g = node.generators[0]
+            cur, src = self.ev(ctx, g.iter, cur)
+            if not (isinstance(src, tuple) and src[0] == "tuple"):
+                self.err(node, "list comprehension needs a statically known sequence")
+            out = []
+            for elem in src[1]:
+                cur = self.destructure(ctx, g.target, elem, cur, node)
+                cur, v = self.ev(ctx, node.elt, cur)
+                if not (isinstance(v, tuple) and v[0] == "v"):
+                    out.append(v)
+                else:
+                    keep = self.fresh(ctx.thread, "lc")      # the loop variable is reused: keep this iteration's value
+                    n = self.m.new_node()
+                    self.emit(ctx, cur, n, updates=[(V(keep), v)], visible=False, node=node)
+                    cur = n
+                    out.append(V(keep))
+            return cur, ("tuple", out)
         if isinstance(node, ast.Dict):
             for v in node.values:
                 cur, _ = self.ev(ctx, v, cur)
@@ -1049,6 +1117,17 @@ class Compiler:
             return C(self.U.const(("task", n)))
         if n.startswith("RESULT_") and n[7:] in self.task_specs:
             return C(self.U.const(("result", n[7:])))
+        if n in fr.localfuncs and n not in self.STUB_NOOP_METHODS and getattr(self, "closure_values", False):
+            return C(self.U.const(("localfunc", n)))
+        clo = getattr(fr, "closure", None)
+        while clo is not None:      # free variables of a nested function: the defining frame's variables
+            if n in clo.tuples:
+                return clo.tuples[n]
+            if n in clo.locals:
+                return V(clo.locals[n])
+            if n in clo.static:
+                return clo.static[n]
+            clo = getattr(clo, "closure", None)
         if n in ("True", "False", "None"):
             return C(self.U.const({"True": True, "False": False, "None": None}[n]))
         if n in self.ns and isinstance(self.ns[n], (str, int, bool, type(None))):
@@ -1123,8 +1202,11 @@ class Compiler:
         # ---- plain names
         if isinstance(fn, ast.Name):
             name = fn.id
-            if name in ctx.frame.localfuncs or name in self.STUB_NOOP_METHODS:
+            if name in self.STUB_NOOP_METHODS or (name in ctx.frame.localfuncs and not getattr(self, "closure_values", False)):
                 return cur, C(NONE)
+            if name in ctx.frame.localfuncs:
+                fdef = ctx.frame.localfuncs[name]
+                return self.inline(ctx, fdef, None, node.args, node.keywords, cur, node, "<local>", closure=ctx.frame)
             if name == "len":
                 cur, x = self.ev(ctx, node.args[0], cur)
                 return cur, ("len", x)
@@ -1216,7 +1298,7 @@ class Compiler:
         fnode = self.m.classes[cname].methods[mname]
         return self.inline(ctx, fnode, recv, node.args, node.keywords, cur, node, cname)
 
-    def inline(self, ctx, fnode, recv, args, keywords, cur, callnode, cname, pre_evaluated=None):
+    def inline(self, ctx, fnode, recv, args, keywords, cur, callnode, cname, pre_evaluated=None, closure=None):
         if len(ctx.frames) > self.max_inline_depth:
             self.err(callnode, "inline depth exceeded (recursion?)")
         self.inline_id += 1
@@ -1242,8 +1324,9 @@ class Compiler:
             cur, v = self.ev(ctx, k.value, cur)
             kw[k.arg] = v
         fr = ctx.push_frame(fnode.name, tag=f"{fnode.name}{self.inline_id}")
+        fr.closure = closure
         old_line0, old_file = ctx.line0, ctx.file
-        ctx.line0 = getattr(fnode, "_owner_line0", 1) - 1
+        ctx.line0 = getattr(fnode, "_line0_abs", None) if hasattr(fnode, "_line0_abs") else getattr(fnode, "_owner_line0", 1) - 1
         ctx.file = getattr(fnode, "_owner_file", ctx.file)
         params = [a.arg for a in fnode.args.args]
         defaults = fnode.args.defaults
@@ -1330,6 +1413,7 @@ class Frame:
         self.ret_node = None
         self.ret_var = None
         self.finally_base = 0
+        self.closure = None
 
 
 class Ctx:
